@@ -131,6 +131,20 @@ partial def stepCodec (st : TmplSt) (cs : CodecSt) (toks : List String) : Option
       let (st', o) := updNode st p i fun n => if n.flags.skipped then (n, 0) else setSvalue n bs
       some (st', cs, o)
     | _, _, _ => some (st, cs, "bad-op")
+  | ["ss.setd", p, i, h] =>
+    match p.toNat?, i.toNat?, parseHex (if h.length % 2 = 1 then "0" ++ h else h) with
+    | some p, some i, some bs =>
+      let bits := bs.foldl (fun a b => a * 256 + b) 0
+      let (st', o) := updNode st p i (fun n => setDvalue n (SF.ofDoubleBits bits))
+      some (st', cs, o)
+    | _, _, _ => some (st, cs, "bad-op")
+  | ["ss.setf", p, i, h] =>
+    match p.toNat?, i.toNat?, parseHex (if h.length % 2 = 1 then "0" ++ h else h) with
+    | some p, some i, some bs =>
+      let bits := bs.foldl (fun a b => a * 256 + b) 0
+      let (st', o) := updNode st p i (fun n => setFvalue n (SF.ofFloatBits bits))
+      some (st', cs, o)
+    | _, _, _ => some (st, cs, "bad-op")
   | ["ds.encode", c] =>
     match c.toInt?, st.tmpl with
     | some c, some t =>
